@@ -96,20 +96,107 @@ Proof.
   rewrite app_nth1; [reflexivity|]. fold l. rewrite Hl. lia.
 Qed.
 
-Lemma step_ok cur m gs call : memo_ok m -> call_ok rows call = true ->
+Definition enums_ok (gs : enums) : Prop := forall g, 0 <= epos gs g.
+
+Lemma advance_ok gs call : enums_ok gs -> enums_ok (advance rows gs call).
+Proof.
+  intros H. destruct call as [|n|k|q|g]; cbn [advance]; try exact H.
+  destruct (epos gs g <? zlen rows); [|exact H].
+  intros g'. cbn [epos]. destruct (g =? g'); [specialize (H g); lia|apply H].
+Qed.
+
+Lemma step_ok cur m gs call : memo_ok m -> enums_ok gs -> call_ok rows call = true ->
   exists m', sym_step img c cur (m, gs) (op_of call)
              = ((m', advance rows gs call), obs_of (answer strtab rows gs call)) /\ memo_ok m'.
 Proof.
-  intros Hst Hc. destruct call as [|n|k|q|g]; cbn [op_of sym_step answer obs_of call_ok advance] in *.
+  intros Hst Hgs Hc. destruct call as [|n|k|q|g]; cbn [op_of sym_step answer obs_of call_ok advance] in *.
   - exists m. rewrite Hnum. split; [reflexivity|exact Hst].
   - exists m. unfold below in Hc. rewrite get_symbol_cur_free, Hget by lia. split; [reflexivity|exact Hst].
   - exists m. rewrite iter_prefix_ok by lia. split; [reflexivity|exact Hst].
   - exists (Some full_map). rewrite by_name_st_ok by exact Hst. split; [reflexivity|right; reflexivity].
   - exists m. rewrite Hnum, gen_pos_epos. split; [|exact Hst].
     destruct (Z.ltb_spec (epos gs g) (zlen rows)) as [Hlt|Hge]; [|reflexivity].
-    assert (H0 : 0 <= epos gs g).
-    { clear. induction gs as [|[k j] gs IH]; cbn [epos]; [lia|]. destruct (k =? g); [|exact IH].
-      (* positions are only ever set to a successor of a position or read back *) admit. }
+    pose proof (Hgs g) as H0.
     rewrite get_symbol_cur_free, Hget by lia. reflexivity.
 Qed.
+
+Lemma run_ok adv : forall calls t m gs, memo_ok m -> enums_ok gs -> forallb (call_ok rows) calls = true ->
+  exists st', sym_run img c adv t (m, gs) (map op_of calls)
+              = (st', map obs_of (answers strtab rows gs calls)).
+Proof.
+  induction calls as [|call calls IH]; intros t m gs Hst Hgs Hc.
+  - exists (m, gs). reflexivity.
+  - cbn [forallb] in Hc. apply andb_true_iff in Hc. destruct Hc as [Hc1 Hc2].
+    destruct (step_ok (adv t) m gs call Hst Hgs Hc1) as [m1 [E1 Hst1]].
+    destruct (IH (t + 1) m1 (advance rows gs call) Hst1 (advance_ok gs call Hgs) Hc2) as [st2 E2].
+    exists st2. cbn [map sym_run answers]. rewrite E1, E2. reflexivity.
+Qed.
+
+(* every call of every history on a fresh object, under EVERY cursor schedule, answers as the
+   specification does: no dependence on earlier calls (other than the position of an enumeration
+   in itself) nor on what happened to the stream between calls or between two steps of a generator *)
+Theorem history_free adv calls : forallb (call_ok rows) calls = true ->
+  snd (sym_run img c adv 0 (None, []) (map op_of calls)) = map obs_of (answers strtab rows [] calls).
+Proof.
+  intros Hc. destruct (run_ok adv calls 0 None [] (or_introl eq_refl) (fun g => Z.le_refl 0) Hc) as [st' E].
+  apply (f_equal snd) in E. exact E.
+Qed.
+
+Theorem cursor_free adv adv' calls : forallb (call_ok rows) calls = true ->
+  snd (sym_run img c adv 0 (None, []) (map op_of calls)) = snd (sym_run img c adv' 0 (None, []) (map op_of calls)).
+Proof. intros Hc. rewrite !history_free by exact Hc. reflexivity. Qed.
+
+Lemma answers_app : forall calls en more,
+  answers strtab rows en (calls ++ more)
+  = answers strtab rows en calls ++ answers strtab rows (fold_left (advance rows) calls en) more.
+Proof.
+  induction calls as [|call calls IH]; intros en more; [reflexivity|].
+  cbn [app answers fold_left]. rewrite IH. reflexivity.
+Qed.
+
+(* in particular: lookup by name after any history *)
+Theorem by_name_after_history adv calls q : forallb (call_ok rows) calls = true ->
+  snd (sym_run img c adv 0 (None, []) (map op_of calls ++ [OpByName q]))
+  = map obs_of (answers strtab rows [] calls) ++ [ObsByName (Ok (by_name_spec strtab rows q))].
+Proof.
+  intros Hc.
+  pose proof (history_free adv (calls ++ [CByName q])) as H.
+  rewrite map_app, answers_app, map_app in H. cbn [map op_of obs_of answers answer] in H. apply H.
+  rewrite forallb_app, Hc. reflexivity.
+Qed.
+
+(* and the k-th step of an enumeration yields entry k, whatever is interleaved with its steps *)
+Theorem next_yields_in_order adv calls g : forallb (call_ok rows) calls = true ->
+  let j := epos (fold_left (advance rows) calls []) g in
+  snd (sym_run img c adv 0 (None, []) (map op_of calls ++ [OpNext g]))
+  = map obs_of (answers strtab rows [] calls) ++ [if j <? zlen rows then ObsSym (Ok (vth vs j)) else ObsStop].
+Proof.
+  intros Hc j.
+  pose proof (history_free adv (calls ++ [CNext g])) as H.
+  rewrite map_app, answers_app, map_app in H. cbn [map op_of answers answer] in H. fold j in H. fold vs in H.
+  rewrite H by (rewrite forallb_app, Hc; reflexivity).
+  f_equal. destruct (j <? zlen rows); reflexivity.
+Qed.
 End hist.
+
+(* ------------------------------------------------------------------ the GNU count walk reads sequentially
+   from ONE seek: the same words as reading each chain word at its own offset *)
+From PV Require Import Model.C03Hash.
+Lemma gnu_count_walk_cur_eq le img P : forall fuel m,
+  gnu_count_walk_cur le img fuel (gh_chain_pos P + (m - gh_symoffset P) * gnu_wordsize) m
+  = gnu_count_walk (read_chain_word le img P) fuel m.
+Proof.
+  induction fuel as [|f IH]; intros m; [reflexivity|].
+  cbn [gnu_count_walk_cur gnu_count_walk]. unfold read_chain_word at 1.
+  destruct (read_uint le 4 img (gh_chain_pos P + (m - gh_symoffset P) * gnu_wordsize)) as [v|]; [|reflexivity].
+  cbn [bind]. destruct (negb (Z.land v 1 =? 0)); [reflexivity|].
+  rewrite <- IH. f_equal. unfold gnu_wordsize. lia.
+Qed.
+
+Theorem gnu_number_of_symbols_cur_eq le img fuel P :
+  gnu_hash_number_of_symbols_cur le img fuel P = gnu_hash_number_of_symbols (read_chain_word le img P) fuel P.
+Proof.
+  unfold gnu_hash_number_of_symbols_cur, gnu_hash_number_of_symbols.
+  destruct (py_max (gh_buckets P)) as [m|e]; [|reflexivity]. cbn [bind].
+  destruct (m <? gh_symoffset P); [reflexivity|]. apply gnu_count_walk_cur_eq.
+Qed.
